@@ -171,7 +171,7 @@ PayloadValid(in) == /\ ~RepeatsAction(in)
 (* null / absent / wrongly typed, a null list element); for the others the spec     *)
 (* makes no claim beyond "an acknowledgement is returned".                          *)
 Mutations == {"null", "absent", "emptyobj", "emptyarr", "string", "number", "bool", "negative", "two64", "huge",
-              "emptystr", "longstr", "numstr", "dupkey", "dupsame", "deep", "deepobj"}
+              "emptystr", "longstr", "numstr", "dupkey", "dupsame", "deep", "deepobj", "rename"}
 DupMuts == {"dupkey", "dupsame"}
 WrongTypeForList == Mutations \ (DupMuts \cup {"null", "absent", "emptyarr"})
 PA == "orbiter.pre_actions"
